@@ -11,13 +11,16 @@ for sid in sorted(os.listdir(os.path.join(VERIF, 'seeded'))):
         rows.append(json.load(open(f)))
 props = sorted({m['property'] for m in rows})
 lines = ['### 10.5 Sensitivity: seeded changes and the checks that catch them', '',
-         'Three waves of independent sub-agents (20 agents per wave, one per property, each given only the property record and a',
-         'scratch worktree; the second and third wave were also told which mechanisms had been used already) delivered 180 changes',
-         'that break a property while the pinned 44 tests (and, for all but three, the 119 examples of `test/test.py`) still pass, each',
-         'with a demonstration.  `tools/seeded.py` confirms every change (applies, pinned tests pass, demonstration fails with it and',
-         'passes without it) and runs the quick tier of the checks against it; `seeded/<id>/meta.json` and `seeded/README.md` have the',
-         'details.  Changes whose mechanism disappeared under a repository fix were re-based by hand where the slip still makes sense',
-         'and dropped ("obsolete") where it does not.', '',
+         'Four waves of independent sub-agents (20 agents per wave, one per property, each given only the property record and a',
+         'scratch worktree; from the second wave on also one-line summaries of the changes delivered before, and a steer away from',
+         'the kinds of slip used most - the fourth wave was sent to files outside the anchors, to regressions of well-meant bug fixes,',
+         'to single functions and to call sequences) delivered 240 changes that break a property while the pinned 44 tests (and, for',
+         'all but three, the 119 examples of `test/test.py`) still pass, each with a demonstration.  `tools/seeded.py` confirms every',
+         'change (applies, pinned tests pass, demonstration fails with it and passes without it) and runs the quick tier of the checks',
+         'against it; `seeded/<id>/meta.json` and `seeded/README.md` have the details.  Changes whose mechanism disappeared under a',
+         'repository fix were re-based by hand where the slip still makes sense and marked obsolete where it does not.  The first run',
+         'of the fourth wave against the checks as they stood caught 19 of 60; every miss was traced to a generator that did not reach',
+         'the input (or the call sequence) and the generators were extended - the table shows the state after that.', '',
          '| property | kept | caught by its own check | caught only by another check | not caught |', '|---|---|---|---|---|']
 tot = [0, 0, 0, 0]
 for p in props:
@@ -47,7 +50,15 @@ lines += ['What the rounds taught (each item is a lane that now exists because a
           '  areas, re-shaped SUMIF sum ranges, criterion cells set through overrides, empty-text cells, failing expressions of every exception class,',
           '  cycles through IFERROR and rings of 100 cells, 400-cell reference chains in threads, more than 100 suspicious cells, month ends and the years',
           '  1900 / 1901, a faked clock for TODAY, tiny and huge magnitudes under %, quoted titles of 31 characters (timed in killable child processes);',
-          '* *harness faults found by seeded changes* are listed in Appendix C (items 9-14).', '']
+          '* *wave 4 (files outside the anchors, regressions of bug fixes, single functions, call sequences)*: texts with characters that mean',
+          '  something elsewhere (@, braces, doubled quotes, _xlfn.) in literals, formats and titles; negative / signed / zero-padded / exponent',
+          '  criterion numbers and literals; whole-column spellings under MATCH / SUMIF / lookups, also across sheets and under entry-point',
+          '  translation; layouts that straddle Z / AA; digit-only and empty sheet titles, workbook-index prefixes, a second sheet qualifier;',
+          '  zeros / FALSE / empty text as overrides over non-blank content, None overrides, plain dates; overrides in two consecutive calls,',
+          '  whole-sheet reads directly after set_cells, Cell objects changed in place and handed over again; chart sheets, array formulas and',
+          '  date-like criteria in the C09 pool with children in other time zones; harness-owned thread schedules; sparse sheets in the timed lane;',
+          '* *defects of the unchanged tree that wave 4 surfaced* (remarks of the authors, or found by the extended generators) are in 10.3 / Appendix C 24;',
+          '* *harness faults found by seeded changes* are listed in Appendix C (items 9-14, 16-18).', '']
 text = '\n'.join(lines)
 p = os.path.join(VERIF, 'DESIGN.md')
 s = open(p).read()
